@@ -36,6 +36,8 @@ CLONE_CALLS = {
     "in-loop": (["loop {", "    out.push(name.clone());", "    break;", "}"], 1, "clone-in-loop", "detect_clone_in_loop"),
     "chain": (["let c = name.clone().clone();", "consume(c);", "consume(name);"], 0, "clone-chain", "detect_clone_chain"),
     "let-unused-after": (["let copy = name.clone();", "consume(copy);"], 0, "unnecessary-clone", "detect_unnecessary_clone"),
+    # one call that matches two patterns: the switches are independent, the higher-priority enabled one names it
+    "let-unused-after-in-loop": (["for _i in 0..3 {", "    let copy = name.clone();", "    consume(copy);", "}"], 1, "BOTH:clone-in-loop|unnecessary-clone", None),
     "let-used-after": (["let copy = name.clone();", "consume(copy);", "consume(name);"], 0, None, None),
     "argument": (["consume(name.clone());", "consume(name);"], 0, None, None),
 }
@@ -127,6 +129,9 @@ def _judge(ctx, vs, expected, prefix, content):
     ctx.require("lines-in-range", all(1 <= v.line <= nlines for v in vs))
 
 
+_CLONE_SWITCH = {"clone-in-loop": "detect_clone_in_loop", "clone-chain": "detect_clone_chain", "unnecessary-clone": "detect_unnecessary_clone"}
+
+
 def h_clone(ctx):
     from src.linters.clone_abuse.linter import CloneAbuseRule
     context = ctx.pick("context", tuple(CONTEXTS))
@@ -138,7 +143,11 @@ def h_clone(ctx):
     line_no = first + 2 + rel
     expected = []
     is_test = CONTEXTS[context][3]
-    if suffix:
+    if suffix and suffix.startswith("BOTH:"):
+        first_p, second_p = suffix[5:].split("|")
+        on1, on2 = flags[_CLONE_SWITCH[first_p]], flags[_CLONE_SWITCH[second_p]]
+        expected.append((line_no, first_p if on1 else second_p, And(Not(And(is_test, ait)), Or(on1, on2))))
+    elif suffix:
         expected.append((line_no, suffix, And(Not(And(is_test, ait)), flags[option])))
     content = "\n".join(lines) + "\n"
     cfg = dict(flags, allow_in_tests=ait, ignore=[])
